@@ -2600,7 +2600,9 @@ func (d *Debugger) statesFromFilters(filters *types.Filters) {
 
 // filtersActive checks if any filters are active.
 func (d *Debugger) filtersActive() bool {
-	return d.Mach.Any1(states.DebuggerGroups.Filters...)
+	// (the checks filter is not a member of the group)
+	return d.Mach.Any1(states.DebuggerGroups.Filters...) ||
+		d.Mach.Is1(ss.FilterChecks)
 }
 
 // hFilterTx returns true when a TX passes selected toolbarItems.
